@@ -70,8 +70,57 @@ def iterator_source(b, v, depth=0):
 
 
 def full_loop_reset(prog, fn, field):
-    """`for x in self.<field>.iter_mut() { x.reset() }` with no adapter and no early exit"""
+    """`for x in self.<field>.iter_mut() { x.reset() }` with no adapter and no early exit; also
+    `self.<field>.iter_mut().for_each(|x| x.reset())` and `for i in 0..self.<field>.len() { accessor(i).reset() }`"""
     b = fn.body
+    # for_each idiom
+    for c in b.calls:
+        if c.callee_name() == 'for_each' and c.args:
+            src = strip(c.args[0])
+            if src.kind == 'call' and src.callee_name() == 'iter_mut' and src.args and vec_base_field(prog, src.args[0]) == (field,):
+                cls = prog.closures_passed(c)
+                if len(cls) == 1:
+                    cb = cls[0].body
+                    ok = False
+                    for r in cb.calls:
+                        tgt = prog.resolve(r)
+                        if tgt is not None and r.args and resets_all_vec_fields(prog, tgt):
+                            a0 = strip(r.args[0])
+                            while a0.kind in ('ref', 'load') and not a0.fields():
+                                a0 = strip(a0.args[0])
+                            if a0.kind == 'param' and a0.args[0] == 2 and all(cb.cfg.dominates(r.point[0], x) for x in cb.cfg.returns):
+                                ok = True
+                    if ok and all(b.cfg.dominates(c.point[0], x) for x in b.cfg.returns):
+                        return c, ''
+    # index loop idiom: for i in 0..len(field) { accessor(self, i).reset() }
+    for rng in [v for v in b._vals if v.kind == 'agg' and v.extra.get('path', '').endswith('Range') and len(v.args) == 2]:
+        lo, hi = strip(rng.args[0]), strip(rng.args[1])
+        if not (lo.is_const(0) and hi.kind == 'call' and hi.callee_name() == 'len' and hi.args and vec_base_field(prog, hi.args[0]) == (field,)):
+            continue
+        nexts = [n for n in b.calls if n.callee_name() == 'next' and n.args and iterator_source(b, n.args[0]) is rng]
+        if len(nexts) != 1:
+            continue
+        n = nexts[0]
+        loops = b.cfg.loops()
+        hdr = [h for h, body in loops.items() if n.point[0] in body]
+        if not hdr:
+            continue
+        body = loops[sorted(hdr, key=lambda h: len(loops[h]))[0]]
+        exits = [(x, s2) for x in body for s2 in b.cfg.succ[x] if s2 not in body and s2 in b.cfg.can_return]
+        sw = [x for x in body if x in b.switch_discr and any(y is n for y in walk(b.switch_discr[x]))]
+        if any(x not in sw for x, _ in exits):
+            continue
+        for r in b.calls:
+            if r.point[0] not in body:
+                continue
+            tgt = prog.resolve(r)
+            if tgt is None or not r.args or not resets_all_vec_fields(prog, tgt):
+                continue
+            acc = prog.accessor_call(strip(r.args[0]))
+            if acc is not None and acc[0]['fields'] == (field,) and any(y is n for y in walk(acc[2])):
+                latch = [x for x in body if min(body, key=lambda q: b.cfg.rpo.index(q)) in b.cfg.succ[x]]
+                if all(b.cfg.dominates(r.point[0], l) for l in latch) and all(b.cfg.dominates(n.point[0], x) for x in b.cfg.returns):
+                    return r, ''
     for c in b.calls:
         if c.callee_name() != 'iter_mut' or not c.args or vec_base_field(prog, c.args[0]) != (field,):
             continue
